@@ -128,6 +128,7 @@ DesignCastDst(tagAt, fixedEnd, elemSize, elemAlign, sz) ==
   ELSE LET n == (sz - fixedEnd) \div elemSize
            sv == SizeOfVal(fixedEnd, elemSize, elemAlign, n, 8) IN
        IF sv = RoundUp8(sz) THEN Ok([at |-> tagAt, sv |-> sv, n |-> n]) ELSE Panic
+\* (structSize = size_of the target type: a multiple of its own alignment, not necessarily of 8)
 DesignCastSized(tagAt, structSize, sz) ==
-  IF RoundUp8(structSize) = RoundUp8(sz) THEN Ok([at |-> tagAt, sv |-> RoundUp8(structSize)]) ELSE Panic
+  IF structSize = RoundUp8(sz) THEN Ok([at |-> tagAt, sv |-> structSize]) ELSE Panic
 =============================================================================
